@@ -5,6 +5,7 @@ writer); handshake, parser construction by reflection, parsing, dispatch, return
 response buffer and the listen loop are the library's own code, run on the virtual loop.
 """
 import asyncio
+from typing import Literal, Union
 import contextlib
 import inspect
 import io
@@ -190,6 +191,10 @@ class ExtTaskPool(TaskPool):
     @property
     def undocumented_prop(self) -> int:
         return 7
+
+    def mode_method(self, num: int, how: Literal["newest", "oldest"] = "newest", msg: Union[str, int, None] = None) -> str:
+        """A method whose optional parameters are annotated with Literal[...] and a Union of several types."""
+        return f"{num}:{how}:{msg}"
 
     def with_h_option(self, item: int, hint: str = "", verbose: bool = False) -> str:
         """A method whose optional parameter starts with the letter of the help flag."""
